@@ -4,11 +4,13 @@
 (* not accept is printed as <<"BAD", json>> (index, id, reasons) and checking goes on, so *)
 (* one TLC run yields every verdict.  Prop selects the property being judged.            *)
 EXTENDS Filter, Json
-CONSTANT Prop                        \* "C15" | "C16" | "C17"
+CONSTANTS Prop,                      \* "C15" | "C16" | "C17"
+          Chunk                      \* records per chain: the chains are independent, so TLC workers share the trace
 Trace == ndJsonDeserialize("records.ndjson")
 VARIABLE l
-Init == l = 1
-Next == l <= Len(Trace) /\ l' = l + 1
+(* l walks every index of the trace exactly once: chains start at 1, Chunk+1, 2*Chunk+1, ... *)
+Init == l \in {k \in 1..Len(Trace) : k % Chunk = 1 \/ Chunk = 1}
+Next == l < Len(Trace) /\ l % Chunk # 0 /\ l' = l + 1
 Spec == Init /\ [][Next]_l
 
 If(c, why) == IF c THEN <<>> ELSE <<why>>
@@ -70,8 +72,14 @@ Verdict(r) == CASE Prop = "C15" -> Verdict15(r)
                 [] Prop = "C16" -> Verdict16(r)
                 [] Prop = "C17" -> Verdict17(r)
 
-RecordOK == l <= Len(Trace) =>
-              LET v == Verdict(Trace[l])
-              IN v = <<>> \/ PrintT(<<"BAD", ToJson([i |-> l, id |-> Trace[l].id, why |-> v])>>)
-TraceAccepted == TLCGet("stats").diameter = Len(Trace) + 1
+(* informational: bounded decoding at the filter.Filter interface that returns more than *)
+(* min(n, D) bytes (allowed by that interface, trimmed by StreamDict)                      *)
+Note(r) == Prop = "C16" /\ r.mode = "bounded" /\ r.api = "F" /\ r.kind = "ok" /\ r.len > Min2(r.arg, r.D)
+
+RecordOK == LET r == Trace[l]
+                v == Verdict(r)
+            IN /\ v = <<>> \/ PrintT(<<"BAD", ToJson([i |-> l, id |-> r.id, why |-> v])>>)
+               /\ ~Note(r) \/ PrintT(<<"NOTE", ToJson([i |-> l, id |-> r.id])>>)
+(* every record was judged *)
+TraceAccepted == TLCGet("stats").distinct = Len(Trace)
 =============================================================================
